@@ -208,6 +208,26 @@ def ble_oracle(ix: Index, scn: dict) -> list[Violation]:
             op = subs_notify.get(d["tag"])
             if op is None or d["handle"] != op.args["handle"]:
                 out.append(Violation("notify-crosstalk", "", f"notify callback {d['tag']} received data for handle {d['handle']}"))
+    # a notify callback only ever sees data the device sent for ITS address and handle (the callback gets the handle and the
+    # data, not the address: compare with the data messages that were delivered for that key since the subscription began)
+    from collections import Counter
+
+    for tag, op in subs_notify.items():
+        mine: Counter = Counter()
+        for c in ix.conns:
+            for seq, mtype, data, state, turn, t in ix.pp.get(c, []):
+                if table.by_id.get(mtype) == "BluetoothGATTNotifyDataResponse" and seq > op.s0:
+                    m = pb.BluetoothGATTNotifyDataResponse()
+                    try:
+                        m.ParseFromString(data)
+                    except Exception:
+                        continue
+                    if m.address == op.args["address"] and m.handle == op.args["handle"]:
+                        mine[bytes(m.data)] += 1
+        got = Counter(bytes(x[2]["data"]) for x in ix.cbs if x[1] == "cb_notify" and x[2]["tag"] == tag)
+        extra = got - mine
+        if extra:
+            out.append(Violation("notify-crosstalk", "foreign-key", f"notify callback {tag} (address {op.args['address']:#x}, handle {op.args['handle']}) received {sum(extra.values())} notification(s) the device never sent for that address and handle"))
     # every notify-data message for an active (address, handle) subscription is delivered once
     for tag, op in subs_notify.items():
         if not op.ok:
@@ -258,7 +278,7 @@ def reply_msgs(rng: random.Random, kind: str, addr: int, handle: int) -> list:
     if kind == "svcdone":
         return [["BluetoothGATTGetServicesDoneResponse", {"address": addr}]]
     if kind == "data":
-        return [["BluetoothGATTNotifyDataResponse", {"address": addr, "handle": handle, "data": "%02x" % rng.getrandbits(8)}]]
+        return [["BluetoothGATTNotifyDataResponse", {"address": addr, "handle": handle, "data": "%06x" % rng.getrandbits(24)}]]
     raise ValueError(kind)
 
 
